@@ -21,6 +21,7 @@ extern void *switch_shim(void *(*fn)(void *, void *), void *a1, void *a2, uint64
 
 world W;
 proc PR[MAXP];
+bool g_rec_on; callrec g_rec[MAXCALLREC]; int g_nrec; double g_evt[MAXEVT]; int g_nevt;
 const plan *PLAN;
 
 const char *const opname[OP_NOPS] = { "none", "hold", "yield", "wait-process", "wait-event", "resource-acquire",
@@ -338,12 +339,19 @@ static void call_begin(proc *pr, int op, int obj, int64_t arg)
     TR4("call", pr->id, op, obj, arg);
     extern void mon_call_begin(proc *pr);
     mon_call_begin(pr);
+    if (g_rec_on && g_nrec < MAXCALLREC && pr->gen == 1) {
+        callrec *c = &g_rec[g_nrec++];
+        c->pid = pr->id; c->stepk = pr->pc - 1; c->op = op; c->t0 = tnow(); c->t1 = -1.0; c->prio = pr->pp->priority;
+        pr->arg = pr->arg;
+    }
     arm_faults(pr, pr->pc - 1);
 }
 
 static void call_end(proc *pr, int64_t ret)
 {
     pr->ran_this_event = true;
+    if (g_rec_on && pr->gen == 1)
+        for (int k = g_nrec - 1; k >= 0; k--) if (g_rec[k].pid == pr->id && g_rec[k].stepk == pr->call_step) { if (g_rec[k].t1 < 0.0) g_rec[k].t1 = tnow(); break; }
     TR4("ret", pr->id, pr->op, ret, dbits(tnow()));
     mon_call_ret(pr, ret);
     pr->op = OP_NONE;
